@@ -476,6 +476,7 @@ pub struct Opts {
     pub log: Option<PathBuf>,
     pub only: Option<String>,
     pub histories: Option<usize>,
+    pub no_evidence: bool,
 }
 
 pub fn run(opts: Opts, projects: Vec<Project>) -> i32 {
@@ -624,7 +625,9 @@ pub fn run(opts: Opts, projects: Vec<Project>) -> i32 {
         "fresh references are memoised by a hash of (disk contents, overrides): sound because a fresh compile is a pure function of them (C12)".into(),
         "single-threaded histories; concurrent writer/reader races are salsa's own protocol".into(),
     ];
-    ev.write_to(&simcore::verif_root().join("evidence/C13.json"));
+    if !opts.no_evidence {
+        ev.write_to(&simcore::verif_root().join("evidence/C13.json"));
+    }
     println!(
         "simdb c13: {} histories, {} ops, {} checks in {:.1}s; fresh computed {} / memo hits {}; cancellations landed {}; violations {}",
         all.len(), nops, checks, wall,
